@@ -26,6 +26,7 @@ Variable py_args : list (string * list string).
 Variable registrations : list (string * string * bool).
 Variable clex_exact : list string.
 Variable clex_prefixed : list (string * nat * nat).
+Variable lines_literals : list string.
 
 Definition registered (name:string) : option bool :=
   match find (fun r => String.eqb (fst (fst r)) name) registrations with Some r => Some (snd r) | None => None end.
@@ -54,7 +55,8 @@ Definition row_ok (e:entry) : bool :=
       else if String.eqb p "clex" then
         match e_arg e with Some a => clex_mode_ok a | None => false end
       else if String.eqb p "lines" then
-        match e_arg e with Some a => all_digits a || String.eqb a "None" | None => false end
+        (* a nesting level handed to topformflat, or a string that lines.py itself treats specially ("None": no formatter) *)
+        match e_arg e with Some a => all_digits a || (negb (all_digits a) && mem a lines_literals) | None => false end
       else match assoc p py_args with
            | Some allowed => match e_arg e with Some a => mem a allowed | None => false end
            | None => true        (* passes that take no argument *)
